@@ -70,7 +70,9 @@ def build_py(run, prop=ID):
             tag = {"side": "py", "what": "init", "nb": nb}
             hsn_ok = z3.And(z3.Int("hsn") >= 0, z3.Int("hsn") <= 63)
             if out[0] == "raise":
-                goal = z3.And(z3.BoolVal(issubclass(out[1].cls, ValueError)), z3.Or(z3.BoolVal(nb == 0), z3.Not(hsn_ok)))
+                # refusing parameters outside the statement's domain (N 1..64, HSN/MAIO 0..63) is allowed, and only by ValueError
+                in_domain = z3.And(z3.BoolVal(nb != 0), hsn_ok, z3.Int("maio") >= 0, z3.Int("maio") <= 63, n <= 64)
+                goal = z3.And(z3.BoolVal(issubclass(out[1].cls, ValueError)), z3.Not(in_domain))
                 run.add(Obligation(prop, qualname(ini), "raises_ValueError_iff_empty_or_hsn_outside_0_63", p.pc, goal, kind="post", case=cs, where=where(ini), tag=tag))
                 continue
             # a constructed object always satisfies resolve()'s pre-condition on the HSN (RNTABLE index in range): this is what lets the
@@ -149,7 +151,7 @@ def witness_py(o, model):
     if t.get("what") == "resolve":
         t.update(hsn=mval(model, z3.Int("hsn")), maio=mval(model, z3.Int("maio")), n=mval(model, z3.Int("N")), fn=mval(model, z3.Int("fn")))
     elif t.get("what") == "init":
-        t.update(n=mval(model, z3.Int("N")))
+        t.update(n=mval(model, z3.Int("N")), hsn=mval(model, z3.Int("hsn")), maio=mval(model, z3.Int("maio")))
     elif t.get("what") == "fn2gsm_time":
         t.update(fn=mval(model, z3.Int("fn")))
     return t
@@ -177,14 +179,27 @@ def replay_py(payload):
         exp = G.gsm_time(f["fn"])
         return {"confirmed": got != tuple(exp), "observed": got, "expected": exp}
     if what == "init":
-        n = f["n"]
+        n, hsn, maio = max(0, min(200, f["n"])), f.get("hsn", 1), f.get("maio", 0)
+        ma = [(1000 + i, 2000 + i) for i in range(n)]
+        in_domain = 1 <= n <= 64 and 0 <= hsn <= 63 and 0 <= maio <= 63
         try:
-            hp = gs.HoppingParams(1, 0, [(i, i) for i in range(n)])
-            got = hp._pnm
+            hp = gs.HoppingParams(hsn, maio, ma)
         except ValueError:
-            got = "ValueError"
-        exp = "ValueError" if n == 0 else (1 << n.bit_length()) - 1
-        return {"confirmed": got != exp, "observed": got, "expected": exp}
+            return {"confirmed": in_domain, "observed": "ValueError", "expected": "constructed" if in_domain else "ValueError allowed (outside N 1..64, HSN/MAIO 0..63)"}
+        except Exception as e:
+            return {"confirmed": True, "observed": "raises %s" % type(e).__name__, "expected": "ValueError or an object"}
+        if n == 0:
+            return {"confirmed": True, "observed": "object with an empty mobile allocation", "expected": "ValueError"}
+        # a constructed object must be usable: resolve() over a few frames must not raise (this is what a wrong HSN breaks)
+        try:
+            for fn in (0, 1, 51, 1325, 1326, 2715647):
+                r = hp.resolve(fn)
+                if in_domain and r != ma[S.mai_concrete(hsn, maio, n, fn)]:
+                    return {"confirmed": True, "observed": [fn, r], "expected": "MA[MAI] per TS 45.002 6.2.3"}
+        except Exception as e:
+            return {"confirmed": True, "observed": "HoppingParams(%d, %d, %d channels) constructed, resolve raises %s" % (hsn, maio, n, type(e).__name__),
+                    "expected": "refused by the constructor, or usable"}
+        return {"confirmed": False, "observed": "as specified", "expected": "as specified"}
     if what == "resolve":
         n = f["n"]
         ma = [(1000 + i, 2000 + i) for i in range(n)]
